@@ -87,6 +87,8 @@ Record cfg : Type := {
   nested_strict : bool;         (* C++: bitspan::subspan(bits_at, size_bits) REFUSES (TOO_SMALL) when the nested window does not fit,
                                    before the nested routine runs; C hands the nested routine its maximum size unconditionally *)
   plan : chkplan;
+  asserts : bool;               (* --enable-serialization-asserts with NUNAVUT_ASSERT = assert: a false condition ABORTS (outcome EAssert) *)
+  assert_max : bool;            (* _serialize_any emits NUNAVUT_ASSERT((offset_bits + <max>) <= capacity_bytes * 8) in this rendering *)
 }.
 Definition plan_ok (c : cfg) : Prop := plan c = all_first.
 
@@ -97,7 +99,7 @@ Definition ordered {A} (first cond : bool) (e : derr) (body : M A) : M A :=
 Definition dyn_al (off : nat) : bool := off mod 8 =? 0.
 Definition std_cfg (le : bool) : cfg :=
   {| ov := fun _ c => c; up_front := true; little := le; al := dyn_al; len_chk_storage := false; guarded := false; ptr_clamp := true;
-     bulk_on := true; nested_strict := false; plan := all_first |}.
+     bulk_on := true; nested_strict := false; plan := all_first; asserts := false; assert_max := true |}.
 Definition cap_ok (c : cfg) : Prop := forall e n, n <= ov c e n.
 (* the array length checks keep every index inside the storage *)
 Definition cap_sound (c : cfg) : Prop := len_chk_storage c = true \/ cap_ok c.
@@ -193,6 +195,10 @@ Section SerComb.
     end.
 End SerComb.
 
+(* NUNAVUT_ASSERT(cond) *)
+Definition w_assert (c : cfg) (cond : bool) : M unit :=
+  if asserts c && assert_max c && negb cond then fail EAssert else ret tt.
+
 (* _serialize_composite: the nested routine gets &buffer[off/8] and size_bytes = ceil(max/8) *)
 Definition ws_field (c : cfg) (Sr : ty -> cobj -> nat -> nat -> M nat) (t : ty) (o : cobj) (lim off : nat) : M nat :=
   match t with
@@ -217,6 +223,10 @@ Definition ws_field (c : cfg) (Sr : ty -> cobj -> nat -> nat -> M nat) (t : ty) 
   | _ => Sr t o lim off
   end.
 
+(* _serialize_any: the assertion that the maximum representation of the item still fits, then the item *)
+Definition ws_any (c : cfg) (Sr : ty -> cobj -> nat -> nat -> M nat) (t : ty) (o : cobj) (lim off : nat) : M nat :=
+  bindM (w_assert c (off + as_field_max bmax t <=? lim)) (fun _ => ws_field c Sr t o lim off).
+
 Fixpoint ws_body (c : cfg) (t : ty) (o : cobj) (lim off : nat) : M nat :=
   match t with
   | TPrim p => ws_prim c p lim off
@@ -224,7 +234,7 @@ Fixpoint ws_body (c : cfg) (t : ty) (o : cobj) (lim off : nat) : M nat :=
       bindM (tell [OA n n]) (fun _ =>
         match bulk c e with
         | Some w => w_store c lim off (n * w)                               (* nunavutCopyBits, unchecked *)
-        | None => ws_list (fun x off' => ws_field c (ws_body c) e x lim off') n (o_elems o) off
+        | None => ws_list (fun x off' => ws_any c (ws_body c) e x lim off') n (o_elems o) off
         end)
   | TVar e cap =>
       let n := o_count o in
@@ -233,12 +243,12 @@ Fixpoint ws_body (c : cfg) (t : ty) (o : cobj) (lim off : nat) : M nat :=
           bindM (ws_prim c (PU (prefix_bits cap) false) lim off) (fun o1 =>
             match bulk c e with
             | Some w => w_store c lim o1 (n * w)
-            | None => ws_list (fun x off' => ws_field c (ws_body c) e x lim off') n (o_elems o) o1
+            | None => ws_list (fun x off' => ws_any c (ws_body c) e x lim off') n (o_elems o) o1
             end)))
-  | TComp false fs _ => ws_fields (ws_field c (ws_body c)) fs (o_elems o) lim off
+  | TComp false fs _ => ws_fields (ws_any c (ws_body c)) fs (o_elems o) lim off
   | TComp true fs _ =>
       bindM (ws_prim c (PU (tag_bits (length fs)) false) lim off) (fun o1 =>     (* the tag is stored first ... *)
-        bindM (ws_sel (ws_field c (ws_body c)) fs (o_tag o) (o_cell o) lim o1)    (* ... then the if / else-if chain *)
+        bindM (ws_sel (ws_any c (ws_body c)) fs (o_tag o) (o_cell o) lim o1)    (* ... then the if / else-if chain *)
           (fun o2 => ws_pad lim o2 8))
   end.
 
